@@ -13,7 +13,7 @@ State objects are serialisable dataclasses (HTTP re-creates them on every reques
 *saw* is recorded in a process-global registry keyed by the call's argument x:
     ("P", k, step name, schema class seen)   process() call number k
     ("C",)                                    on_cancel
-    ("l", id) ("d", n) ("r",) ("s",) ("e",)   emission order of logs / data / result / finish / raise (C08)
+    ("l", id) ("d", n) ("r",) ("s",) ("e",) ("h",)   emission order of logs / data / result / finish / raise / header (C08)
 """
 import json
 import threading
@@ -164,6 +164,7 @@ class LifeImpl:
 
     def prod_h(self, x: int, prog: str, ctx: CallContext) -> Stream[PS, Hdr]:
         self._init(x, prog, ctx)
+        rec(x, ("h",))
         return Stream(output_schema=OUT, state=PS(x=x, prog=prog), header=Hdr(n=x))
 
     def exch(self, x: int, prog: str, ctx: CallContext) -> Stream[XS]:
@@ -172,6 +173,7 @@ class LifeImpl:
 
     def exch_h(self, x: int, prog: str, ctx: CallContext) -> Stream[XS, Hdr]:
         self._init(x, prog, ctx)
+        rec(x, ("h",))
         return Stream(output_schema=OUT, state=XS(x=x, prog=prog), input_schema=INP, header=Hdr(n=x))
 
 
